@@ -42,6 +42,24 @@ fn new_rec<S>(make: fn(u64, u64) -> S) -> Rec<S> {
 fn mk_f64(id: u64, c: u64) -> f64 {
     1000.0 * id as f64 + c as f64 + 0.5
 }
+/// answers that include the special float values: NaN, -0.0, +-inf (a sweep writes WHATEVER the conditional answers)
+fn mk_f64_special(id: u64, c: u64) -> f64 {
+    match c % 7 {
+        0 => f64::NAN,
+        2 => -0.0,
+        3 => f64::INFINITY,
+        5 => f64::NEG_INFINITY,
+        _ => 1000.0 * id as f64 + c as f64 + 0.5,
+    }
+}
+fn mk_f32_special(id: u64, c: u64) -> f32 {
+    match c % 5 {
+        0 => f32::NAN,
+        2 => -0.0,
+        3 => f32::INFINITY,
+        _ => (100 * id + c) as f32 + 0.5,
+    }
+}
 fn mk_f32(id: u64, c: u64) -> f32 {
     (100 * id + c) as f32 + 0.5
 }
@@ -159,6 +177,51 @@ fn sweep_checks(ctx: &Ctx) {
                 check_log(ctx, "f64", &relocated, &lg, 1, chain.current_state(), &case);
                 ctx.evals(1);
                 ctx.transitions(2);
+            }
+            // conditionals whose answers include NaN, -0.0 and +-inf: the answer is written as it is (bitwise model)
+            if d <= 16 {
+                let init: Vec<f64> = (0..d).map(|k| k as f64).collect();
+                let case = json!({"kind": "sweep", "ty": "f64", "d": d, "steps": steps, "answers": "special values (NaN, -0.0, inf, -inf)"});
+                let rec = new_rec::<f64>(mk_f64_special);
+                let log = rec.log.clone();
+                let r = catch(|| {
+                    let mut chain = GibbsMarkovChain::new(rec, &init);
+                    for _ in 0..steps + 2 {
+                        chain.step();
+                    }
+                    chain.current_state().clone()
+                });
+                ctx.evals(1);
+                ctx.transitions(steps as u64 + 2);
+                match r {
+                    Err(m) => ctx.violation(Violation::new("C05:panic", format!("step panicked when the conditional answers special float values: {m}"), case)),
+                    Ok(cur) => {
+                        let lg = log.lock().unwrap().get(&0).cloned().unwrap_or_default();
+                        check_log(ctx, "f64", &init, &lg, steps + 2, &cur, &case);
+                        ctx.outcome("special-value answers checked", 1);
+                    }
+                }
+                let init: Vec<f32> = (0..d).map(|k| k as f32).collect();
+                let case = json!({"kind": "sweep", "ty": "f32", "d": d, "steps": steps, "answers": "special values (NaN, -0.0, inf)", "chains": 2});
+                let rec = new_rec::<f32>(mk_f32_special);
+                let log = rec.log.clone();
+                let r = catch(|| {
+                    let mut s = GibbsSampler::new(rec, vec![init.clone(), init.clone()]).set_seed(1);
+                    s.run(steps + 1, 1).map_err(|e| e.to_string())?;
+                    Ok::<_, String>(s.chains.iter().map(|c| (c.target.id, c.current_state.clone())).collect::<Vec<_>>())
+                });
+                ctx.evals(1);
+                ctx.transitions(2 * (steps as u64 + 2));
+                match r {
+                    Err(m) | Ok(Err(m)) => ctx.violation(Violation::new("C05:panic", format!("GibbsSampler::run failed when the conditional answers special float values: {m}"), case)),
+                    Ok(Ok(chains)) => {
+                        let g = log.lock().unwrap();
+                        for (id, cur) in chains {
+                            let lg = g.get(&id).cloned().unwrap_or_default();
+                            check_log(ctx, "f32", &init, &lg, steps + 2, &cur, &case);
+                        }
+                    }
+                }
             }
             // histories in which the public current_state is replaced by a state of ANOTHER length between two sweeps
             // (append a latent coordinate / drop one): the sweep covers every coordinate of the chain's CURRENT state
@@ -532,7 +595,7 @@ fn kernel_checks(ctx: &Ctx) {
 }
 
 pub fn run(ctx: &Ctx) {
-    ctx.rule("(a) recording conditional (logs index + a copy of `given`, returns a fresh unique value) for EVERY dimension 1..64, 1..3 steps, initial states {zeros, ramp, NaN-containing, -0/inf} (f64), f32, i32, and 2..4 chains through GibbsSampler::run, against a list model; histories: the public current_state re-assigned (same length, longer, shorter) between two sweeps; two consecutive runs (run;run and run;run_progress) in which the recording conditional's own call counter must continue; (a') fault points: the conditional panics at its k-th call for every k < 2d, d <= 8 (16), the caller recovers and the chain must hold exactly the partially refreshed state; (b) explicit-state: for finite joints (all 255 weight tables over {0..3} on {0,1}^2; structured tables incl. zeros and a diagonal-heavy one on larger spaces) the exact kernel P is built by enumerating EVERY outcome sequence of one real sweep from every positive-probability state, then pi P = pi to 1e-12. states = start states x tables (+ sweep configurations); transitions = sweeps executed");
+    ctx.rule("(a) recording conditional (logs index + a copy of `given`, returns a fresh unique value) for EVERY dimension 1..64, 1..3 steps, initial states {zeros, ramp, NaN-containing, -0/inf} (f64), f32, i32, and 2..4 chains through GibbsSampler::run, against a list model; answers containing NaN / -0.0 / +-inf (d <= 16, chain and sampler); histories: the public current_state re-assigned (same length, longer, shorter) between two sweeps; two consecutive runs (run;run and run;run_progress) in which the recording conditional's own call counter must continue; (a') fault points: the conditional panics at its k-th call for every k < 2d, d <= 8 (16), the caller recovers and the chain must hold exactly the partially refreshed state; (b) explicit-state: for finite joints (all 255 weight tables over {0..3} on {0,1}^2; structured tables incl. zeros and a diagonal-heavy one on larger spaces) the exact kernel P is built by enumerating EVERY outcome sequence of one real sweep from every positive-probability state, then pi P = pi to 1e-12. states = start states x tables (+ sweep configurations); transitions = sweeps executed");
     sweep_checks(ctx);
     fault_points(ctx);
     kernel_checks(ctx);
